@@ -44,7 +44,7 @@ def handleC19 (op : String) (input impl : Json) : Except String Json := do
          (sortVerdict bs pk removed rows rowBlocks).map (fun s => "rows:" ++ s) ++
          (if blockKeysOk bs (distinctKeys pk rows) (blocks.map (·.2.1)) then [] else ["block-key-is-first-row-key"]) ++
          (if blocks.map (·.1) == List.range blocks.length then [] else ["block-offsets"]) ++
-         (if dup || brs.flatten == rowBlocks.flatten then [] else ["outputs-agree"]) ++
+         (if brs.flatten == rowBlocks.flatten then [] else ["outputs-agree"]) ++
          (if leftover == 0 then [] else ["spill-files-removed"]))
       else if resClass impl == "panic" then pure ["no-panic"]
       else if resClass mj == "err" then pure []
